@@ -34,8 +34,10 @@ def run(ctx):
                         if op in ("set", "multiset"):
                             sc["setvals"] = O.setvals(rnd, oids)
                         S.append(sc)
+                        if rnd.random() < 0.15:
+                            S.append(dict(sc, inblock=True))        # the same exchange inside `with client.reconfigure(...)`: the exception leaves the block unchanged
     ctx.rule = ("every operation x v1/v2c/v3 noAuthNoPriv/authNoPriv/authPriv x error-status in 1..19, 255, -1, 65536, -128 x error-index 0..len+1 x "
-                "{bindings echoed, empty binding list}; walk-style operations (strict and lenient) with the error injected at the k-th request; non-trivial = accepted trace of a distinct scenario")
+                "{bindings echoed, empty binding list} (a sample also inside a reconfigure() block); walk-style operations (strict and lenient) with the error injected at the k-th request; non-trivial = accepted trace of a distinct scenario")
     O.drive_and_judge(ctx, S)
     W = []
     for proto in ["v2c", "v1", "v3n", "v3a_sha", "v3p_md5"]:
